@@ -578,7 +578,7 @@ impl<'a> Lexer<'a> {
                         // Only supporting byte lists surrounded by 1 pair of quotes
                         // and surrounded by 3+ pairs of double quotes
                         // reserved 2 quotes for empty byte lists
-                        self.should_create = false;
+                        // the current character is not part of it and starts the next token
                         true
                     } else {
                         self.start_quote_count = self.current_characters.len();
@@ -593,7 +593,7 @@ impl<'a> Lexer<'a> {
                 // so far the only token type that can have a null character reach push
                 // because it adds all chars, mostly indiscriminately
                 // only the end-of-input marker is left out, a null character in the input is kept
-                if !(c == '\0' && self.at_end) {
+                if !end && !(c == '\0' && self.at_end) {
                     self.current_characters.push(c);
                 }
 
